@@ -691,6 +691,11 @@ func (x *CommonLex) Next() rune {
 	if c == utf8.RuneError && size == 1 {
 		return xutils.ERR
 	}
+	if c == xutils.EOF {
+		// A NUL character in the input is not the end of the input (EOF
+		// has the same value); it is not a legal XML character either.
+		return xutils.ERR
+	}
 	return c
 }
 
